@@ -778,7 +778,8 @@ def run(tier, seed):
     rng = rng_for(seed, "c16.refresh")
     run_refresh(s4, refresh_cases(rng, tier))
     suites.append(s4)
-    return suites
+    from .. import extra
+    return list(suites) + [extra.suite_policy_reapplied(tier, seed), extra.suite_recipe_validator(tier, seed)]
 
 
 def replay(payload):
